@@ -22,6 +22,45 @@ EVID = os.environ.get("VERIF_EVIDENCE_DIR") or os.path.join(ROOT, "evidence")
 KNOWN = os.path.join(ROOT, "known_findings.json")
 
 
+def _linecov_start():
+    """diagnostic only (VERIF_LINECOV=<dir>): which source lines of the package do the harnesses reach,
+    symbolically ('sym') and on the real backend ('real')?  Used to audit the harnesses for blind spots
+    (tools/linecov_report.py); never part of a verdict."""
+    d = os.environ.get("VERIF_LINECOV")
+    if not d:
+        return None
+    import sys
+
+    hit = set()
+
+    def local(frame, event, arg):
+        if event == "line":
+            hit.add((os.path.basename(frame.f_code.co_filename), frame.f_lineno, "sym" if frame.f_globals.get("__name__", "").startswith("symbob") else "real"))
+        return local
+
+    def tracer(frame, event, arg):
+        fn = frame.f_code.co_filename
+        if "/bob/learn/em/" in fn:
+            return local
+        return None
+
+    sys.settrace(tracer)
+    return hit
+
+
+def _linecov_stop(hit, prop, jobname):
+    if hit is None:
+        return
+    import sys
+    import hashlib
+
+    sys.settrace(None)
+    d = os.environ["VERIF_LINECOV"]
+    os.makedirs(d, exist_ok=True)
+    with open(os.path.join(d, "%s-%s.json" % (prop, hashlib.md5(jobname.encode()).hexdigest()[:10])), "w") as fh:
+        json.dump(sorted(hit), fh)
+
+
 def _job(prop, modname, jobname, fname, kwargs, tier, seed):
     import warnings
 
@@ -33,11 +72,13 @@ def _job(prop, modname, jobname, fname, kwargs, tier, seed):
 
     t0 = time.time()
     P = Prover(prop, jobname, tier, seed)
+    cov = _linecov_start()
     try:
         m = importlib.import_module(modname)
         getattr(m, fname)(P, **kwargs)
     except BaseException as e:  # harness bug or unsupported construct
         P.rec("job", "error", detail="%s: %s" % (type(e).__name__, e), trace=traceback.format_exc(limit=8))
+    _linecov_stop(cov, prop, jobname)
     s = P.summary()
     s["job"] = jobname
     s["wall"] = time.time() - t0
